@@ -360,7 +360,13 @@ func extractAnnouncedTrailers(header http.Header) http.Header {
 // validTrailerToSend reports whether a field may be sent in a trailer section:
 // it must be a valid trailer field and not connection-specific (which parseTrailers rejects).
 func validTrailerToSend(k string) bool {
-	return httpguts.ValidTrailerHeader(k) && !slices.Contains(invalidHeaderFields[:], strings.ToLower(k))
+	return httpguts.ValidTrailerHeader(k) && !slices.Contains(invalidHeaderFields[:], strings.ToLower(k)) &&
+		httpguts.ValidHeaderFieldName(strings.ToLower(k))
+}
+
+// hasValidValue reports whether at least one of the values may be sent (the peer rejects the others).
+func hasValidValue(vals []string) bool {
+	return slices.ContainsFunc(vals, httpguts.ValidHeaderFieldValue)
 }
 
 // writeTrailers encodes and writes HTTP trailers as a HEADERS frame.
@@ -368,7 +374,7 @@ func validTrailerToSend(k string) bool {
 func writeTrailers(wr io.Writer, trailers http.Header, streamID quic.StreamID, qlogger qlogwriter.Recorder) (bool, error) {
 	var hasValues bool
 	for k, vals := range trailers {
-		if validTrailerToSend(k) && len(vals) > 0 {
+		if validTrailerToSend(k) && hasValidValue(vals) {
 			hasValues = true
 			break
 		}
@@ -393,6 +399,9 @@ func writeTrailers(wr io.Writer, trailers http.Header, streamID quic.StreamID, q
 		}
 		lowercaseKey := strings.ToLower(k)
 		for _, v := range vals {
+			if !httpguts.ValidHeaderFieldValue(v) {
+				continue
+			}
 			if err := enc.WriteField(qpack.HeaderField{Name: lowercaseKey, Value: v}); err != nil {
 				return false, err
 			}
